@@ -324,6 +324,52 @@ func lemmaRoundTripAuthenticate(c *authenticateCodec, msg *Authenticate, version
 //@   ensures same: result1 == nil ==> forall k int :: 0 <= k && k < len(msg.Authenticator) ==> unbox(result0, *Authenticate).Authenticator[k] == msg.Authenticator[k]
 //@   ensures accepted: msg.Authenticator != "" && len(msg.Authenticator) <= 65535 ==> result1 == nil
 
+// ---- C01: flags are derived from field presence and drive both writer and reader ------------------------------------
+// Each optional field is on the wire exactly when its flag is set, so every flag must be set exactly when its field
+// is present (specification: section 4.1.4 <flags> of QUERY, 4.1.7 BATCH, 4.1.5 PREPARE, 4.2.5.2 Rows metadata).
+//@ func (*QueryOptions).Flags
+//@   prop C01, C02
+//@   ensures values: result.Contains(primitive.QueryFlagValues) == (!isnil(o.PositionalValues) || !isnil(o.NamedValues))
+//@   ensures names: result.Contains(primitive.QueryFlagValueNames) == (isnil(o.PositionalValues) && !isnil(o.NamedValues))
+//@   ensures skip: result.Contains(primitive.QueryFlagSkipMetadata) == o.SkipMetadata
+//@   ensures pagesize: result.Contains(primitive.QueryFlagPageSize) == (o.PageSize > 0)
+//@   ensures pagebytes: result.Contains(primitive.QueryFlagDsePageSizeBytes) == (o.PageSize > 0 && o.PageSizeInBytes)
+//@   ensures pagingstate: result.Contains(primitive.QueryFlagPagingState) == !isnil(o.PagingState)
+//@   ensures serial: result.Contains(primitive.QueryFlagSerialConsistency) == (o.SerialConsistency != nil)
+//@   ensures timestamp: result.Contains(primitive.QueryFlagDefaultTimestamp) == (o.DefaultTimestamp != nil)
+//@   ensures keyspace: result.Contains(primitive.QueryFlagWithKeyspace) == (o.Keyspace != "")
+//@   ensures now: result.Contains(primitive.QueryFlagNowInSeconds) == (o.NowInSeconds != nil)
+//@   ensures continuous: result.Contains(primitive.QueryFlagDseWithContinuousPagingOptions) == (o.ContinuousPagingOptions != nil)
+//@   ensures nothingelse: result &^ (primitive.QueryFlagValues | primitive.QueryFlagValueNames | primitive.QueryFlagSkipMetadata | primitive.QueryFlagPageSize | primitive.QueryFlagDsePageSizeBytes | primitive.QueryFlagPagingState | primitive.QueryFlagSerialConsistency | primitive.QueryFlagDefaultTimestamp | primitive.QueryFlagWithKeyspace | primitive.QueryFlagNowInSeconds | primitive.QueryFlagDseWithContinuousPagingOptions) == 0
+
+//@ func (*Batch).Flags
+//@   prop C01, C02
+//@   ensures serial: result.Contains(primitive.QueryFlagSerialConsistency) == (m.SerialConsistency != nil)
+//@   ensures timestamp: result.Contains(primitive.QueryFlagDefaultTimestamp) == (m.DefaultTimestamp != nil)
+//@   ensures keyspace: result.Contains(primitive.QueryFlagWithKeyspace) == (m.Keyspace != "")
+//@   ensures now: result.Contains(primitive.QueryFlagNowInSeconds) == (m.NowInSeconds != nil)
+//@   ensures nothingelse: result &^ (primitive.QueryFlagSerialConsistency | primitive.QueryFlagDefaultTimestamp | primitive.QueryFlagWithKeyspace | primitive.QueryFlagNowInSeconds) == 0
+
+//@ func (*Prepare).Flags
+//@   prop C01, C02
+//@   ensures keyspace: result.Contains(primitive.PrepareFlagWithKeyspace) == (m.Keyspace != "")
+//@   ensures nothingelse: result &^ primitive.PrepareFlagWithKeyspace == 0
+
+//@ func (*RowsMetadata).Flags
+//@   prop C01, C02
+//@   requires elems: forall k int :: 0 <= k && k < len(rm.Columns) ==> rm.Columns[k] != nil
+//@   ensures nometadata: flag.Contains(primitive.RowsFlagNoMetadata) == (len(rm.Columns) == 0)
+//@   ensures global: flag.Contains(primitive.RowsFlagGlobalTablesSpec) == (len(rm.Columns) > 0 && haveSameTable(rm.Columns))
+//@   ensures more: flag.Contains(primitive.RowsFlagHasMorePages) == !isnil(rm.PagingState)
+//@   ensures changed: flag.Contains(primitive.RowsFlagMetadataChanged) == !isnil(rm.NewResultMetadataId)
+//@   ensures continuous: flag.Contains(primitive.RowsFlagDseContinuousPaging) == (rm.ContinuousPageNumber > 0)
+//@   ensures last: flag.Contains(primitive.RowsFlagDseLastContinuousPage) == (rm.ContinuousPageNumber > 0 && rm.LastContinuousPage)
+
+//@ func (*VariablesMetadata).Flags
+//@   prop C01, C02
+//@   requires elems: forall k int :: 0 <= k && k < len(rm.Columns) ==> rm.Columns[k] != nil
+//@   ensures global: flag.Contains(primitive.VariablesFlagGlobalTablesSpec) == (len(rm.Columns) > 0 && haveSameTable(rm.Columns))
+
 // >>> generated by /verif/tools/gen_roundtrip.py
 // (do not edit by hand; the table of messages and fields is in the generator)
 
@@ -619,49 +665,3 @@ func lemmaRoundTripConfigError(c *errorCodec, msg *ConfigError, version primitiv
 //@   ensures ErrorMessage: result1 == nil ==> forall k int :: 0 <= k && k < len(msg.ErrorMessage) ==> unbox(result0, *ConfigError).ErrorMessage[k] == msg.ErrorMessage[k]
 
 // <<< generated
-
-// ---- C01: flags are derived from field presence and drive both writer and reader ------------------------------------
-// Each optional field is on the wire exactly when its flag is set, so every flag must be set exactly when its field
-// is present (specification: section 4.1.4 <flags> of QUERY, 4.1.7 BATCH, 4.1.5 PREPARE, 4.2.5.2 Rows metadata).
-//@ func (*QueryOptions).Flags
-//@   prop C01, C02
-//@   ensures values: result.Contains(primitive.QueryFlagValues) == (!isnil(o.PositionalValues) || !isnil(o.NamedValues))
-//@   ensures names: result.Contains(primitive.QueryFlagValueNames) == (isnil(o.PositionalValues) && !isnil(o.NamedValues))
-//@   ensures skip: result.Contains(primitive.QueryFlagSkipMetadata) == o.SkipMetadata
-//@   ensures pagesize: result.Contains(primitive.QueryFlagPageSize) == (o.PageSize > 0)
-//@   ensures pagebytes: result.Contains(primitive.QueryFlagDsePageSizeBytes) == (o.PageSize > 0 && o.PageSizeInBytes)
-//@   ensures pagingstate: result.Contains(primitive.QueryFlagPagingState) == !isnil(o.PagingState)
-//@   ensures serial: result.Contains(primitive.QueryFlagSerialConsistency) == (o.SerialConsistency != nil)
-//@   ensures timestamp: result.Contains(primitive.QueryFlagDefaultTimestamp) == (o.DefaultTimestamp != nil)
-//@   ensures keyspace: result.Contains(primitive.QueryFlagWithKeyspace) == (o.Keyspace != "")
-//@   ensures now: result.Contains(primitive.QueryFlagNowInSeconds) == (o.NowInSeconds != nil)
-//@   ensures continuous: result.Contains(primitive.QueryFlagDseWithContinuousPagingOptions) == (o.ContinuousPagingOptions != nil)
-//@   ensures nothingelse: result &^ (primitive.QueryFlagValues | primitive.QueryFlagValueNames | primitive.QueryFlagSkipMetadata | primitive.QueryFlagPageSize | primitive.QueryFlagDsePageSizeBytes | primitive.QueryFlagPagingState | primitive.QueryFlagSerialConsistency | primitive.QueryFlagDefaultTimestamp | primitive.QueryFlagWithKeyspace | primitive.QueryFlagNowInSeconds | primitive.QueryFlagDseWithContinuousPagingOptions) == 0
-
-//@ func (*Batch).Flags
-//@   prop C01, C02
-//@   ensures serial: result.Contains(primitive.QueryFlagSerialConsistency) == (m.SerialConsistency != nil)
-//@   ensures timestamp: result.Contains(primitive.QueryFlagDefaultTimestamp) == (m.DefaultTimestamp != nil)
-//@   ensures keyspace: result.Contains(primitive.QueryFlagWithKeyspace) == (m.Keyspace != "")
-//@   ensures now: result.Contains(primitive.QueryFlagNowInSeconds) == (m.NowInSeconds != nil)
-//@   ensures nothingelse: result &^ (primitive.QueryFlagSerialConsistency | primitive.QueryFlagDefaultTimestamp | primitive.QueryFlagWithKeyspace | primitive.QueryFlagNowInSeconds) == 0
-
-//@ func (*Prepare).Flags
-//@   prop C01, C02
-//@   ensures keyspace: result.Contains(primitive.PrepareFlagWithKeyspace) == (m.Keyspace != "")
-//@   ensures nothingelse: result &^ primitive.PrepareFlagWithKeyspace == 0
-
-//@ func (*RowsMetadata).Flags
-//@   prop C01, C02
-//@   requires elems: forall k int :: 0 <= k && k < len(rm.Columns) ==> rm.Columns[k] != nil
-//@   ensures nometadata: flag.Contains(primitive.RowsFlagNoMetadata) == (len(rm.Columns) == 0)
-//@   ensures global: flag.Contains(primitive.RowsFlagGlobalTablesSpec) == (len(rm.Columns) > 0 && haveSameTable(rm.Columns))
-//@   ensures more: flag.Contains(primitive.RowsFlagHasMorePages) == !isnil(rm.PagingState)
-//@   ensures changed: flag.Contains(primitive.RowsFlagMetadataChanged) == !isnil(rm.NewResultMetadataId)
-//@   ensures continuous: flag.Contains(primitive.RowsFlagDseContinuousPaging) == (rm.ContinuousPageNumber > 0)
-//@   ensures last: flag.Contains(primitive.RowsFlagDseLastContinuousPage) == (rm.ContinuousPageNumber > 0 && rm.LastContinuousPage)
-
-//@ func (*VariablesMetadata).Flags
-//@   prop C01, C02
-//@   requires elems: forall k int :: 0 <= k && k < len(rm.Columns) ==> rm.Columns[k] != nil
-//@   ensures global: flag.Contains(primitive.VariablesFlagGlobalTablesSpec) == (len(rm.Columns) > 0 && haveSameTable(rm.Columns))
